@@ -129,7 +129,7 @@ Example nested_value_roundtrip :
     Some (VDict [(KStr [98], VTuple [VNp DI64 (NI 1); VNp DF64 (NF 5 (-1)); VStr [122]]);
                  (KStr [97], VList [VNone; VList [VNp DBool (NB true); VArray INumpy DBool [] [NB false]]]);
                  (KIdx 10, VArray (IAutograd true) DF32 [2] [NF 1 0; NF 3 (-1)])]).
-Proof. split; reflexivity. Qed.
+Proof. split; vm_compute; reflexivity. Qed.
 
 Example history_hyps_satisfiable :
   let x := KStr [120] in let y := KStr [121] in
@@ -140,4 +140,4 @@ Example history_hyps_satisfiable :
   read_tree (fst (run encode h (empty_world 3))) 1 x = Some (VTuple [VNone]) /\
   read_tree (fst (run encode h (empty_world 3))) 1 y = Some (VList [VNp DI64 (NI 2)]) /\
   read_tree (fst (run encode h (empty_world 3))) 2 y = None.
-Proof. repeat split; try reflexivity. repeat constructor. Qed.
+Proof. cbv zeta. split; [repeat constructor | repeat split; vm_compute; reflexivity]. Qed.
